@@ -720,8 +720,34 @@ fn fork_fails(ctx: &mut Ctx, fl: &Flags, i: u64) {
     run::end_case();
 }
 
+/// A pipeline whose later command cannot be started: the commands already running are waited for - nobody asked for
+/// them to be signalled.
+fn failing_pipeline_start_sends_no_signal(ctx: &mut Ctx, fl: &Flags, i: u64) {
+    run::begin_case();
+    let dir = ctx.scratch("lifep");
+    let n = 2 + (i % 3) as usize;
+    let mut cmds: Vec<subprocess::Exec> = (0..n - 1).map(|j| subprocess::Exec::cmd(&ctx.vchild).args(&["io", "3", &format!("s{},x0", 40 + 30 * j)]).arg(dir.join(format!("rep{}", j)))).collect();
+    cmds.push(subprocess::Exec::cmd(dir.join("no-such-program")));
+    let pl = subprocess::Pipeline::from_exec_iter(cmds).stdout(subprocess::NullFile);
+    let term = (i / 3) % 3;
+    let m = run::monitored(move || match term {
+        0 => pl.popen().map(|v| format!("{} started", v.len())).map_err(|e| e.to_string()),
+        1 => pl.join().map(|s| format!("{:?}", s)).map_err(|e| e.to_string()),
+        _ => pl.capture().map(|c| format!("{:?}", c.exit_status)).map_err(|e| e.to_string()),
+    });
+    let evs = m.events();
+    let kills: Vec<String> = evs.iter().filter(|e| e.child == 0 && matches!(e.kind, k::KILL | k::KILLPG | k::TGKILL)).map(ilog::fmt_ev).collect();
+    ctx.count("failing_pipeline_starts_checked_for_signals", 1);
+    ctx.distinct(&format!("plfail|{}|{}", n, term));
+    if !kills.is_empty() {
+        viol(ctx, fl.c10, "C10/unrequested-signal/failing-pipeline-start", "a pipeline could not start its last command and signalled the commands that were already running: a signal nobody asked for", J::obj().set("commands", J::i(n as i64)).set("result", J::s(&format!("{:?}", m.result))).set("signals", J::arr_s(&kills)));
+    }
+    run::end_case();
+}
+
 fn run_inner(ctx: &mut Ctx, fl: Flags) {
     ctx.family("fork-fails", 24, |ctx, _rng, i| fork_fails(ctx, &fl, i));
+    ctx.family("failing-pipeline-start", 27, |ctx, _rng, i| failing_pipeline_start_sends_no_signal(ctx, &fl, i));
     // every exit code
     ctx.family("codes", 256, |ctx, rng, i| {
         let ops = match rng.below(4) {
